@@ -78,7 +78,7 @@ fn certainly_ill_formed(line: &str) -> Option<&'static str> {
 
 pub fn run(tier: Tier) -> i32 {
     let rep = Report::new("C17", tier, "model_checking");
-    rep.set_rule("SCOPE: (forms) utterances (incl. labels whose first phoneme is named like a number: 2, -1, 1e3, .5, +0; one utterance of 300 lines) x {&[&str], &[String], Vec<String>, &[&str; N], Vec<Label>} x a blank line inserted at every position x time stamps present/absent/zero-length/all zero/backwards/astronomical with alignment off (utterances incl. one with sil and pau labels), and time-stamped lines with blank lines at every position with alignment on, waveforms compared bit-exactly; (faults) 5 base lines (plain label, label with times, label with fractional times, and two already ill-formed ones: one time stamp deleted, /K: section deleted): every single-character deletion, duplication, and substitution/insertion from a 33-symbol alphabet (incl. line breaks) at every position, every prefix truncation, every token deletion/duplication, 14 special time tokens; thorough: all pairs of substitutions on a 40-character window; oracle: never a panic, Err required for certainly ill-formed lines (two tokens, time rejected by f64::from_str, missing phoneme separator or /A:../K: marker); distinct = distinct corrupted line; non-trivial = line differs from the base");
+    rep.set_rule("SCOPE: (forms) utterances (incl. labels whose first phoneme is named like a number: 2, -1, 1e3, .5, +0; one utterance of 300 lines; sentence ends on a voice whose trees ask about the undefined-phoneme marker) x {&[&str], &[String], Vec<String>, &[&str; N], Vec<Label>} x a blank line inserted at every position x time stamps present/absent/zero-length/all zero/backwards/astronomical with alignment off (utterances incl. one with sil and pau labels), and time-stamped lines with blank lines at every position with alignment on, waveforms compared bit-exactly; (faults) 5 base lines (plain label, label with times, label with fractional times, and two already ill-formed ones: one time stamp deleted, /K: section deleted): every single-character deletion, duplication, and substitution/insertion from a 33-symbol alphabet (incl. line breaks) at every position, every prefix truncation, every token deletion/duplication, 14 special time tokens; thorough: all pairs of substitutions on a 40-character window; oracle: never a panic, Err required for certainly ill-formed lines (two tokens, time rejected by f64::from_str, missing phoneme separator or /A:../K: marker); distinct = distinct corrupted line; non-trivial = line differs from the base");
     rep.assume("single faults (pairs on one window in the thorough tier); lines that are not certainly ill-formed may be accepted or rejected");
     let corpus = labels::corpus();
     let tiny = engine_from_bytes(&GenCfg { nstate: 2, ..GenCfg::default() }.bytes()).expect("generated voice");
@@ -104,8 +104,17 @@ pub fn run(tier: Tier) -> i32 {
     utts.push(corpus[0..300].to_vec());
     rep.guard(numberlike >= 2, "no number-like label accepted by the label parser");
     let form_cases = AtomicU64::new(0);
-    for (ename, e, utt_limit) in [("G", &tiny, utts.len()), ("V0", &v0, (tier.pick(3, 4) + numberlike).min(utts.len() - 1))] {
-        for u in utts.iter().take(utt_limit) {
+    // a voice whose trees ask whether the phoneme after next is undefined ("*=xx/A:*"), on the ends of sentences (where
+    // that slot is xx, and where consecutive labels share everything from /A: on)
+    let txx = engine_from_bytes(&GenCfg { nstate: 2, tree: 2, ..GenCfg::default() }.bytes()).expect("generated voice");
+    let ends: Vec<usize> = (3..corpus.len()).filter(|i| corpus[*i].contains("=xx/A:")).take(3).collect();
+    rep.guard(!ends.is_empty(), "no sentence end found in the corpus");
+    let n_general = utts.len();
+    for i in &ends {
+        utts.push(corpus[i - 3..(i + 2).min(corpus.len())].to_vec());
+    }
+    for (ename, e, utt_limit) in [("G", &tiny, n_general), ("V0", &v0, (tier.pick(3, 4) + numberlike).min(n_general - 1)), ("Gxx", &txx, utts.len())] {
+        for u in utts.iter().take(utt_limit).skip(if ename == "Gxx" { n_general } else { 0 }) {
             let base = match synth(e, u) {
                 Ok(b) => b,
                 Err(why) => {
